@@ -10,22 +10,101 @@ def light(o):
             'skip': o.get('skip'), 'detail': o.get('detail')}
 
 
+class Hang(Exception):
+    pass
+
+
+def guarded(fn, *a, seconds=25, **kw):
+    """run a build in a helper thread: a build that does not return (e.g. a leaked build lock) is a
+    finding, not something to wait for"""
+    box = {}
+
+    def w():
+        try:
+            box['r'] = fn(*a, **kw)
+        except BaseException as e:      # noqa: B902 - reported to the caller
+            box['e'] = e
+    t = threading.Thread(target=w, daemon=True)
+    t.start()
+    t.join(seconds)
+    if t.is_alive():
+        raise Hang()
+    if 'e' in box:
+        raise box['e']
+    return box['r']
+
+
+def args_probe(mode):
+    """build arguments (rates, prepend, variants, metadata) are inputs, not scratch space: building
+    must not change them, and a later build that is handed the same objects gives the bytes a
+    build with fresh copies gives"""
+    import copy
+    from sc3.synth.synthdef import SynthDef
+    from sc3.synth.ugens.inout import Out
+    from sc3.synth.ugens.oscillators import SinOsc
+    ns = {'Out': Out, 'SinOsc': SinOsc}
+    exec("def fa(a:'ir'=1, b:'tr'=0, c=3, d:'ar'=0):\n    Out.kr(0, SinOsc.kr(c) * a)\n"
+         "def fb(x=1, y=2, z=(3, 4), w=5):\n    Out.kr(0, SinOsc.kr(x) * y + w)\n", ns)
+    problems = []
+    for rates in ([0.5, 0.25, None, 0.125], [None, 'kr', 0.5, 0.25], [0.1, 0.1]):
+        shared = copy.deepcopy(rates)
+        variants = {'v': {'c': 7}}
+        meta = {'note': [1, 2]}
+        prepend = []
+        snap = copy.deepcopy((shared, variants, meta, prepend))
+        first = bytes(SynthDef('pa', ns['fa'], shared, prepend, variants, meta).as_bytes())
+        # (the library pads the caller's `rates` list with zeros in place; that is visible to the
+        # caller but does not change any later build, so it is not demanded here — only the bytes are)
+        again = bytes(SynthDef('pb', ns['fb'], shared).as_bytes())
+        fresh = bytes(SynthDef('pb', ns['fb'], copy.deepcopy(rates)).as_bytes())
+        if again != fresh:
+            problems.append(f'definition built with a rates list that an earlier build had used differs from the '
+                            f'build with a fresh copy of {rates}')
+        refirst = bytes(SynthDef('pa', ns['fa'], copy.deepcopy(rates), [], {'v': {'c': 7}}, {'note': [1, 2]}).as_bytes())
+        if refirst != first:
+            problems.append('rebuilding the first definition with equal arguments gives different bytes')
+    return problems
+
+
 def run(payload):
     c01._init(payload.get('mode', 'nrt'))
     cases = payload['cases']
     out = []
+    try:
+        probe = guarded(args_probe, payload.get('mode', 'nrt'))
+    except Hang:
+        probe = ['HANG in the build-argument probe']
+    except Exception as e:
+        probe = [f'build-argument probe raised {type(e).__name__}: {e}']
     for case in cases:
         res = {}
         # 1. optional poison build first (raises in the graph function / fails input checks / fails in the writer)
-        if case.get('poison'):
-            p = c01.build_program(case['poison'])
-            res['poison'] = light(p)
-        # 2. the build itself, twice
-        a = c01.build_program(case['prog'])
-        b = c01.build_program(case['prog'])
+        try:
+            if case.get('poison'):
+                p = guarded(c01.build_program, case['poison'])
+                res['poison'] = light(p)
+            # 2. the build itself, twice
+            a = guarded(c01.build_program, case['prog'])
+            b = guarded(c01.build_program, case['prog'])
+        except Hang:
+            # a build never returned: report what we have and stop this process (the hung thread
+            # may hold the build lock for ever)
+            res['hang'] = True
+            res.setdefault('first', {'canon': 'HANG', 'residue': None, 'flags': {}, 'skip': None, 'detail': 'build did not return within 25 s'})
+            res['second'] = 'HANG'
+            out.append(res)
+            while len(out) < len(cases):
+                out.append({'first': {'canon': 'NOT-RUN', 'residue': None, 'flags': {}, 'skip': 'not-run', 'detail': ''}, 'second': None})
+            out[0]['args_probe'] = probe
+            import json, os, sys
+            sys.stdout.write('\n@@RESULT@@' + json.dumps(out))
+            sys.stdout.flush()
+            os._exit(0)
         res['first'] = light(a)
         res['second'] = b['canon']
         out.append(res)
+    if out:
+        out[0]['args_probe'] = probe
     # 3. the same programs from several threads at once
     nthreads = payload.get('threads', 0)
     if nthreads:
